@@ -566,6 +566,10 @@ REFINED = [
     "exponentiation at the working precision; negative exponent: reversed context + reciprocal), convert_int / From<IBig> / "
     "from_parts, the parser's significand assembly (int*B^fd + fract, precision = digit characters): <= p+1 (constructors: <= p) "
     "digits and normalised, for operands of any length (float_results_fit_more, float_sources_fit)",
+    "round 4: FLOAT history theorem — every register of any finite program over from_parts, convert_int, with_precision, neg, "
+    "clone, Context add/sub/mul/sqr/cubic/div/inv/sqrt/powi(+-) at any limited precision per instruction and the operator product "
+    "is normalised, finite and has <= precision+1 digits; hence cmp of ANY two registers = order of the values, Equal <=> == <=> "
+    "identical representation (float_history, float_history_cmp)",
     "round 4: history instruction set extended by gcd (C12's mirrored kernels), sqrt, nth_root (C12), from_str_radix (C07's mirrored "
     "parser), from_le/be_bytes unsigned and two's complement (C07's mirrored decoders), to_*_bytes -> from_*_bytes round trips; "
     "the interpreter hrunX is what the driver executes for `c.hist`",
@@ -610,7 +614,7 @@ THEOREMS = ["Dashu.Props.C05." + n for n in [
     "float_cmp_needs_precision_bound", "float_normalize", "float_eq_iff_cmp_equal", "ratio_cmp", "relaxed_eq", "rbig_eq",
     "ratio_cmp_equal_iff_eq", "history_canonical", "history_values", "history_eq_cmp_hash",
     "float_results_fit", "float_cmp_of_results", "float_spare_digit_occurs", "rbig_hash_follows_value", "float_results_canonical",
-    "float_results_fit_more", "float_sources_fit", "float_cmp_equal_iff_eq"]]
+    "float_results_fit_more", "float_sources_fit", "float_cmp_equal_iff_eq", "float_history", "float_history_cmp"]]
 
 LEVEL_TEXT = ("Machine-checked Lean 4 theorems that (integers, every word size and length) comparison of canonical values is the order "
               "of the values and the canonical representation of a value is unique — so ==, the sequence fed to a Hasher and "
@@ -618,7 +622,7 @@ LEVEL_TEXT = ("Machine-checked Lean 4 theorems that (integers, every word size a
               "proved counterexample for the non-canonical value the old ones(128) built; (floats) repr_cmp_same_base equals the order of "
               "the exact values for all precisions/rounding modes given digits <= precision+1 — which the modelled producers (repr_round "
               "and its borrowing twin, add, sub, mul, sqr, cubic, div incl. its pre-shrink, inv, sqrt, powi, convert_int, from_parts, the parser) "
-              "are proved to guarantee, also along chains — with a proved counterexample at precision+2, normalize is canonical and == <=> cmp Equal; (rationals) repr_cmp/repr_eq equal cross-"
+              "are proved to guarantee, also along arbitrary finite programs of these operations (float history theorem) — with a proved counterexample at precision+2, normalize is canonical and == <=> cmp Equal; (rationals) repr_cmp/repr_eq equal cross-"
               "multiplication order/equality on non-reduced fractions and RBig's structural == is value equality on reduced ones. The "
               "model is tied to /repo on every run by differential execution; integer values are additionally built through 40 (UBig) / "
               "26 (IBig) independent routes whose results must be canonical (repr_info hook), pairwise ==, cmp Equal and hash-identical; "
